@@ -7,7 +7,7 @@ use pdatastructs::countminsketch::CountMinSketch;
 use serde_json::json;
 use std::sync::Mutex;
 
-pub const RULE: &str = "grid eps in {0.3,0.1,0.03,0.01, e/64, e/1024 (power-of-two widths)} x delta in {0.9,0.5,0.2,0.05,0.01,1e-3,1e-4} x stream in {uniform, zipf(1.1), adversarial-heavy (floor(0.9/eps) heavy hitters each just above eps*N plus a light tail that is queried), the same into a sketch reused after clear()}; per cell S independent seeded hashers (Mix; SipHash on a subset), 400-500 queried elements per seed; failure = overestimate > eps*N; verdict on the per-seed failure fractions: violated iff mean - 5*SE > delta in two independent stages (fresh seeds, 4x trials). non-trivial = (cell, seed) execution whose stream had total weight > 0 and >= 100 queried elements; distinct = (cell, seed) pairs";
+pub const RULE: &str = "grid eps in {0.3,0.1,0.03,0.01, e/64, e/1024 (power-of-two widths), 1e-5 and 2e-5 (tables of 1.4-2.7x10^5 columns; adversarial stream, 20000 queried elements per seed)} x delta in {0.9,0.5,0.2,0.05,0.01,1e-3,1e-4} x stream in {uniform, zipf(1.1), adversarial-heavy (floor(0.9/eps) heavy hitters each just above eps*N plus a light tail that is queried), the same into a sketch reused after clear()}; per cell S independent seeded hashers (Mix; SipHash on a subset), 400-500 queried elements per seed; failure = overestimate > eps*N; verdict on the per-seed failure fractions: violated iff mean - 5*SE > delta in two independent stages (fresh seeds, 4x trials). non-trivial = (cell, seed) execution whose stream had total weight > 0 and >= 100 queried elements; distinct = (cell, seed) pairs";
 pub const ASSUMPTIONS: &[&str] = &[
     "the fraction is taken over (hasher seed, queried element) pairs as the property states",
     "known finding: double hashing makes two keys that agree on (h1 mod w, h2 mod w) collide in every row, so the failure fraction has a floor of about H/w^2 independent of d; cells below that floor are listed in known_findings.json with a magnitude envelope",
@@ -71,7 +71,7 @@ fn one_seed(eps: f64, delta: f64, stream: Stream, bh: CtlBuildHasher, r: &mut Fa
                 c.clear();
             }
             let h = (0.9 / eps).floor() as u64;
-            let l = 2000u64;
+            let l = if eps < 1e-4 { 20_000u64 } else { 2000u64 };
             // heavy weight hw just above eps*N with N = h*hw + l
             let mut hw = ((eps * l as f64 + 1.0) / (1.0 - eps * h as f64)).ceil() as u64;
             loop {
@@ -87,7 +87,7 @@ fn one_seed(eps: f64, delta: f64, stream: Stream, bh: CtlBuildHasher, r: &mut Fa
             for i in 0..h {
                 items.push((key(1_000_000 + i), hw));
             }
-            queried = 0..500;
+            queried = if eps < 1e-4 { 0..l as usize } else { 0..500 };
         }
     }
     let total: u64 = items.iter().map(|x| x.1).sum();
@@ -160,7 +160,9 @@ pub fn run(ctx: &Ctx) -> Report {
     let mut rep = Report::new();
     let seeds = ctx.tier.pick(1500, 12_000);
     // e/1024 and e/64: widths that are exact powers of two
-    let epss = [0.3, 0.1, 0.03, 0.01, std::f64::consts::E / 1024.0, std::f64::consts::E / 64.0];
+    // 1e-5 and 2e-5: tables of more than 10^5 columns (a constructor that silently caps the table
+    // size, or loses precision in ceil(e/eps), shows only there)
+    let epss = [0.3, 0.1, 0.03, 0.01, std::f64::consts::E / 1024.0, std::f64::consts::E / 64.0, 1e-5, 2e-5];
     let deltas = [0.9, 0.5, 0.2, 0.05, 0.01, 1e-3, 1e-4];
     let mut cells = vec![];
     for &eps in &epss {
@@ -173,6 +175,10 @@ pub fn run(ctx: &Ctx) -> Report {
                 if pow2 && (stream != Stream::Adversarial || !(delta == 0.5 || delta == 0.2 || delta == 0.05)) {
                     continue; // power-of-two widths: adversarial stream, moderate delta only
                 }
+                let wide = eps < 1e-4;
+                if wide && (stream != Stream::Adversarial || !((eps == 1e-5 && (delta == 0.05 || delta == 0.01)) || (eps == 2e-5 && delta == 1e-4))) {
+                    continue; // very wide tables: adversarial stream, three (eps, delta) pairs
+                }
                 for mode in [HMode::Mix, HMode::Sip] {
                     if mode == HMode::Sip && !(stream == Stream::Adversarial && (delta == 0.05 || delta == 0.2 || delta == 1e-3)) {
                         continue;
@@ -183,6 +189,7 @@ pub fn run(ctx: &Ctx) -> Report {
                             continue;
                         }
                     }
+                    let seeds = if wide { ctx.tier.pick(48, 200) } else { seeds };
                     let s1 = run_cell(ctx, eps, delta, stream, mode, 1, seeds);
                     rep.evaluations += s1.queried;
                     for i in 0..s1.fracs.len() {
